@@ -14,7 +14,7 @@ From Verif.Codec Require Import Packets Decode Encode.
 From Verif.Gateway Require Import GwTypes GwStep GwWf GwRun Sound_C16 Sound_C16b.
 From Verif.Match Require Import Match.
 From Verif.Client Require Import ClTypes ClStep Sound_Client.
-From Verif.System Require Import Compose ComposeProofs ComposeProofs2_aux ComposeProofs2 ComposeLoss ComposeLoss2 ComposeLoss3_aux ComposeLoss3 ComposeLoss4_aux ComposeLoss4 ComposeProofs3_aux ComposeProofs3 ComposeSleep ComposeSleepLoss.
+From Verif.System Require Import Compose ComposeProofs ComposeProofs2_aux ComposeProofs2 ComposeLoss ComposeLoss2 ComposeLoss3_aux ComposeLoss3 ComposeLoss4_aux ComposeLoss4 ComposeLoss5_aux ComposeLoss5 ComposeProofs3_aux ComposeProofs3 ComposeSleep ComposeSleepLoss.
 From Verif.Checkers Require Import ChkCodec ChkGw ChkGw5 ChkCl.
 Open Scope N_scope.
 
@@ -231,3 +231,34 @@ Theorem C16_new_topic_loss_pattern_delivery :
     rets_of (traceR retain topic mid i payload (h :: hs') rd rs0 rs1 T dp) = [].
 Proof. exact traceR_facts. Qed.
 Print Assumptions C16_new_topic_loss_pattern_delivery.
+
+(* ... and a QoS 2 message on a name without topic ID: the REGISTER step under any pattern rs0 of at most RetryCount
+   failed rounds, followed by the (here lossless: faultsq) QoS 2 flow under the registered ID - exact trace traceRq;
+   the handler runs exactly once, the broker receives exactly PUBREC then PUBCOMP (traceRq_facts); same registration
+   on both sides.  (Losses in the QoS 2 phases AFTER a REGISTER step are covered by the end-to-end runs, not proved:
+   C16_qos2_survives_any_loss_pattern is about short topic names.) *)
+Theorem C16_new_topic_qos2_survives_register_losses :
+  forall cfg y dup retain topic mid payload rs0 d,
+    Quiet cfg y -> RegReady cfg y topic -> 1 <= mid < 65536 -> okb payload = true ->
+    0 < retry_delay (e_gw cfg) ->
+    N.of_nat (length rs0) <= retry_count (e_gw cfg) -> N.of_nat (length rs0) < 99990 ->
+    faultsq cfg rs0 (y_c2g_k y) (y_g2c_k y) ->
+    N.of_nat (length rs0) * retry_delay (e_gw cfg) <= d ->
+    let t := gw_now (y_gw y) in
+    let i := gw_seq_next (y_gw y) in
+    let hs := handle_set (cl_handlers (y_cl y)) topic in
+    let m := MqPublish dup 2 retain topic mid payload in
+    exists y1 y2 tr1 tr2,
+      sys_step cfg y (SBpub m) = (y1, tr1) /\ sys_step cfg y1 (SAdv d) = (y2, tr2) /\
+      tr1 ++ tr2 = SoBS t m :: traceRq retain topic mid i payload hs (retry_delay (e_gw cfg)) rs0 t dup /\
+      Quiet cfg y2 /\ gw_now (y_gw y2) = t + d /\ RegDone y y2 topic i.
+Proof. exact ComposeLoss5.C16_new_topic_qos2_survives_register_losses. Qed.
+Print Assumptions C16_new_topic_qos2_survives_register_losses.
+
+Theorem C16_new_topic_qos2_delivery :
+  forall retain topic mid i payload h hs' rd rs0 T dp,
+    cbs_full (traceRq retain topic mid i payload (h :: hs') rd rs0 T dp) = [(h, topic, payload, 2, retain, dp, mid)] /\
+    brs_of (traceRq retain topic mid i payload (h :: hs') rd rs0 T dp) = [MqPubrec mid; MqPubcomp mid] /\
+    rets_of (traceRq retain topic mid i payload (h :: hs') rd rs0 T dp) = [].
+Proof. exact traceRq_facts. Qed.
+Print Assumptions C16_new_topic_qos2_delivery.
